@@ -181,6 +181,41 @@ def _(h, t, s1, s2, step):
     h.call(h.getattr(a, 'unpeer'), b); step()
 
 
+@program('sub_interfaces_removed_with_their_owner')
+def _(h, t, s1, s2, step):
+    """a dedicated port with TWO sub-interfaces (one of them connected); the owner card, then the owner node, is removed"""
+    n1, n2, c1, c2 = two_nodes(h, t, s1, s2, step)
+    port = topo.iface(h, c1, 'nic1-p1')
+    h.call(h.getattr(port, 'add_child_interface'), name='sub1', labels=h.call(Labels, vlan='100')); step()
+    h.call(h.getattr(port, 'add_child_interface'), name='sub2', labels=h.call(Labels, vlan='200')); step()
+    port2 = topo.iface(h, c1, 'nic1-p2')
+    h.call(h.getattr(port2, 'add_child_interface'), name='sub3', labels=h.call(Labels, vlan='300')); step()
+    h.call(h.getattr(port2, 'add_child_interface'), name='sub4', labels=h.call(Labels, vlan='400')); step()
+    h.call(h.getattr(t, 'add_network_service'), name='br1', nstype=ServiceType.L2STS,
+           interfaces=L(h, [topo.iface(h, port, 'sub1'), topo.iface(h, c2, 'nic2-p1')])); step()
+    h.call(h.getattr(n1, 'remove_component'), 'nic1'); step()
+    c3 = h.call(h.getattr(n1, 'add_component'), name='nic3', model_type=CMT('SmartNIC_ConnectX_6')); step()
+    p3 = topo.iface(h, c3, 'nic3-p1')
+    h.call(h.getattr(p3, 'add_child_interface'), name='sub5', labels=h.call(Labels, vlan='500')); step()
+    h.call(h.getattr(p3, 'add_child_interface'), name='sub6', labels=h.call(Labels, vlan='600')); step()
+    h.call(h.getattr(t, 'remove_node'), 'n1'); step()
+
+
+@program('connections_made_after_the_service_exists')
+def _(h, t, s1, s2, step):
+    """interfaces connected one by one to an existing service, including ones the service type may refuse"""
+    n1, n2, c1, c2 = two_nodes(h, t, s1, s2, step)
+    i1, i1b, i2 = topo.iface(h, c1, 'nic1-p1'), topo.iface(h, c1, 'nic1-p2'), topo.iface(h, c2, 'nic2-p1')
+    ptp = h.call(h.getattr(t, 'add_network_service'), name='ptp', nstype=ServiceType.L2PTP, interfaces=L(h, [i1])); step()
+    h.attempt(h.getattr(ptp, 'connect_interface'), i2); step()           # a shared port on a point-to-point service
+    h.attempt(h.getattr(ptp, 'connect_interface'), i1); step()           # already connected
+    br = h.call(h.getattr(t, 'add_network_service'), name='br', nstype=ServiceType.L2Bridge, interfaces=L(h, [])); step()
+    h.attempt(h.getattr(br, 'connect_interface'), i1); step()            # connected to another service
+    h.call(h.getattr(br, 'connect_interface'), i1b); step()
+    h.attempt(h.getattr(br, 'disconnect_interface'), i2); step()         # not connected here (may or may not have been accepted above)
+    h.call(h.getattr(br, 'disconnect_interface'), i1b); step()
+
+
 @program('names_stay_unique_in_their_scope')
 def _(h, t, s1, s2, step):
     """attempts to create a second element of the same name in every scope, in the orders a guard could miss"""
